@@ -1157,8 +1157,9 @@ class HTMLDocument:
             and cast(Tag, content[0]).name == "html"
         ):
             html = cast(Tag, content[0])
-            html.attrs.update(**self._html_attr_args)
+            # Copy first: the attributes must be added to the copy, not to the user's tag
             html = html.tagify()
+            html.attrs.update(**self._html_attr_args)
             html = HTMLDocument._hoist_head_content(html, lib_prefix, include_version)
             return html
 
